@@ -332,10 +332,10 @@ def run(chk, replay=None):
                 if ok != 'true':
                     if is_noise(ad) or is_noise(xd):
                         key = {'kind': 'dimension', 'family': 'noise-operators'}
-                    elif op == '/' and xd[0] == 'time' and xd[1] in ('impedance', 'admittance') and xd[4]:
-                        key = {'kind': 'dimension', 'family': 'division-by-unchanging-time-domain-immittance'}
                     elif op == '/' and xd[0] == 'time' and xd[1] in ('impedance', 'admittance') and ad[0] == 'time' and ad[1] == 'undefined' and ad[5]:
                         key = {'kind': 'dimension', 'family': 'reciprocal-of-time-domain-immittance'}
+                    elif op == '/' and xd[0] == 'time' and xd[1] in ('impedance', 'admittance') and xd[4]:
+                        key = {'kind': 'dimension', 'family': 'division-by-unchanging-time-domain-immittance'}
                     else:
                         key = {'kind': 'dimension', 'family': 'other', 'op': op, 'a_quantity': ad[1], 'x_quantity': xd[1]}
                     violation(key, inp, {'quantity': real[2], 'units': ustr(real[3]), 'domain': real[1]},
